@@ -7,8 +7,10 @@ vs `nvdriver run` on the real front end's annotated AST) on the corpus, a genera
 arrays (copy -> nested write -> read both, push/pop/reverse through index chains, arrays passed to and
 returned from functions, mutation of parameters) and the mixed stream.  Implementation-level oracles
 (no model): template programs whose expected output the harness computes with plain Rust value
-semantics (`--kind c05`, ORACLE-FAIL [C05]); run twice, frame vs no frame, plan vs no plan must print
-the same values."""
+semantics (`--kind c05`, ORACLE-FAIL [C05]) — copy / nested write / push / pop / reverse sequences over
+three variables, and (tag `c05scoped`) functions that mutate and read a CAPTURED array through index
+chains while functions on the call chain hold and mutate an unrelated local or parameter of the same
+name; run twice, frame vs no frame, plan vs no plan must print the same values."""
 import runlib
 from common import Check
 
@@ -46,6 +48,7 @@ def templates(ck, n):
     res = ck.corr(runlib.FAMILY, reqs, label="run-c05-templates", timeout=7200)
     info = runlib.classify(ck, "c05tmpl", reqs, res)
     ck.extra_cov["c05_template_programs"] = info["cases"]
+    ck.extra_cov["c05_scoped_template_programs"] = sum(1 for r in reqs if " tag=c05scoped " in r)
     return {"requests": reqs, "res": res, "info": info}
 
 
